@@ -285,6 +285,32 @@ Proof.
   - apply nth_error_None in E. lia.
 Qed.
 
+(* Random over every history of atomic Set / Next steps (any number of goroutines: each method is one
+   step under the mutex) *)
+Definition draw_ok (draw : nat -> nat) : Prop := forall n, (0 < n)%nat -> (draw n < n)%nat.
+Definition rnd_op_ok (op : rnd_op) : Prop := match op with RndNext d => draw_ok d | RndSet ns => ns <> [] end.
+Definition rnd_entry_ok (e : list nat * option (option nat)) : Prop :=
+  match e with
+  | (ns, Some o) => exists v, o = Some v /\ In v ns
+  | (_, None) => True
+  end.
+
+Lemma rnd_always_configured ops : forall nodes, nodes <> [] -> Forall rnd_op_ok ops -> Forall rnd_entry_ok (rnd_run nodes ops).
+Proof.
+  induction ops as [|op ops IH]; intros nodes Hne Hops; cbn [rnd_run]; [constructor|].
+  inversion Hops as [|? ? Hop Hops']; subst. destruct op as [d|ns]; cbn [rnd_step].
+  - constructor; [|apply IH; assumption]. cbn [rnd_entry_ok]. apply random_next_in. apply Hop.
+    destruct nodes; [contradiction|simpl; lia].
+  - constructor; [exact I|]. apply IH; assumption.
+Qed.
+
+(* the split (two critical sections) variant does leave the configured list: size read on a list of
+   3, Set to a list of 1 in the gap, then the index 2 is out of range (Go: panic) *)
+Example split_next_leaves_the_pool :
+  snd (split_step (fst (split_step (fst (split_step ([0;1;2]%nat, None) (SpSize (fun n => n - 1)%nat))) (SpSet [7]%nat))) SpIndex)
+  = Some None.
+Proof. reflexivity. Qed.
+
 (* ------------------------------------------------------------------ non-vacuity *)
 Example rr_example :
   map (fun e => snd (fst e)) (rr_run rr_init [RRSet [10;11;12]%nat; RRNext; RRNext; RRNext; RRNext;
